@@ -988,6 +988,12 @@ bool Parser::parseExpressionWithPrecedenceUnary(ExpressionSyntax*& expr)
         case SyntaxKind::AmpersandAmpersandToken:
             if (!tree_->parseOptions().languageExtensions().isEnabled_extGNU_LabelsAsValues())
                 diagReporter_.ExpectedFeature("GNU labels as values");
+            // The operand is the identifier of a label.
+            if (peek(2).kind() != SyntaxKind::IdentifierToken) {
+                consume();
+                diagReporter_.ExpectedTokenOfCategoryIdentifier();
+                return false;
+            }
             return parsePrefixUnaryExpression_AtFirst(
                         expr,
                         SyntaxKind::ExtGNU_LabelAddress,
